@@ -271,8 +271,6 @@ CONTRACTS.update({
         props=["C16"],
         params={"state": STATE, "graph": GRAPH, "select": ANY, "on_missing": STR},
         returns=DICT(STR, ANY),
-        requires=["select is _UNSET_SELECT or select == '**' or isinstance(select, str) or isinstance(select, list)",
-                  "not isinstance(select, list) or all(isinstance(x, str) for x in select)"],
         ensures=[
             # never an ordering sentinel, always the value held by the state
             "all(k in state.values and state.values[k] is not _EMIT_SENTINEL and result[k] is state.values[k] for k in result)",
